@@ -18,10 +18,19 @@ ENV = dict(os.environ, CARGO_NET_OFFLINE='true', EGSIM_VERIF_DIR=MU)
 FILES = {
     'C03': ['src/draw_target/clipped.rs', 'src/draw_target/cropped.rs', 'src/draw_target/translated.rs',
             'src/draw_target/color_converted.rs', 'src/iterator/contiguous.rs', 'src/iterator/pixel.rs',
-            'core/src/draw_target/mod.rs'],
-    'C09': ['src/image/image_raw.rs', 'src/image/sub_image.rs', 'src/image/mod.rs', 'src/iterator/raw.rs'],
-    'C10': ['src/framebuffer.rs'],
+            'core/src/draw_target/mod.rs', 'core/src/primitives/rectangle/mod.rs',
+            'core/src/primitives/rectangle/points.rs'],
+    'C09': ['src/image/image_raw.rs', 'src/image/sub_image.rs', 'src/image/mod.rs', 'src/iterator/raw.rs',
+            'core/src/pixelcolor/raw/load_store.rs'],
+    'C10': ['src/framebuffer.rs', 'core/src/pixelcolor/raw/load_store.rs', 'core/src/pixelcolor/raw/to_bytes.rs'],
     'C20': ['src/mock_display/mod.rs', 'src/mock_display/color_mapping.rs'],
+    # C01: only the bodies of `draw_styled` (the draw() renderer) and of the styled pixel iterators'
+    # `next` (the pixels() renderer) — a change to one of the two separately written renderers must
+    # show up as a difference between them; code shared by both is left alone (see LINE_FILTER)
+    'C01': ['src/primitives/rectangle/styled.rs', 'src/primitives/circle/styled.rs',
+            'src/primitives/ellipse/styled.rs', 'src/primitives/rounded_rectangle/styled.rs',
+            'src/primitives/triangle/styled.rs', 'src/primitives/polyline/styled.rs',
+            'src/primitives/line/styled.rs', 'src/primitives/arc/styled.rs', 'src/primitives/sector/styled.rs'],
     'C04': ['src/primitives/common/styled_scanline.rs', 'src/primitives/common/scanline.rs',
             'src/primitives/rectangle/styled.rs', 'src/primitives/circle/styled.rs',
             'src/primitives/ellipse/styled.rs', 'src/primitives/rounded_rectangle/styled.rs',
@@ -52,6 +61,14 @@ OPS = [
     (r'\.is_on\(\)', '.is_off()', None), (r'\.is_off\(\)', '.is_on()', None),
     (r'\bnth\(', 'nth(1 + ', None),
     (r'BinaryColor::On\b', 'BinaryColor::Off', None),
+    (r'-self\.offset', 'self.offset', None),
+    (r'\(self\.offset\)', '(-self.offset)', None),
+    (r'\.intersection\(&[^()]*(\([^()]*\))?[^()]*\)', '', None),
+    (r'\.translate\(', '.translate(Point::new(1, 0) + ', None),
+    (r'area\.top_left', 'Point::zero()', None),
+    (r'\.filter\(', '.skip(1).filter(', None),
+    (r'\.zip\(colors\)', '.zip(colors.into_iter().skip(1))', None),
+    (r'repeat\(color\)', 'repeat(color).take(3)', None),
 ]
 
 
@@ -75,15 +92,49 @@ def setup():
     assert rc == 0, o[-2000:]
 
 
+def one_renderer_lines(src):
+    """line numbers (0-based) inside `fn draw_styled` bodies and inside `fn next` of `impl ... Iterator for
+    StyledPixelsIterator` blocks"""
+    lines = src.split('\n')
+    keep = set()
+    i = 0
+    in_pixels_impl = False
+    while i < len(lines):
+        l = lines[i]
+        if l.startswith('impl') and 'Iterator for StyledPixelsIterator' in l:
+            in_pixels_impl = True
+        elif l.startswith('impl') or l.startswith('#[cfg(test)]'):
+            in_pixels_impl = False
+        if 'fn draw_styled' in l or (in_pixels_impl and 'fn next' in l):
+            depth = 0
+            started = False
+            j = i
+            while j < len(lines):
+                depth += lines[j].count('{') - lines[j].count('}')
+                if '{' in lines[j]:
+                    started = True
+                if started:
+                    keep.add(j)
+                if started and depth <= 0:
+                    break
+                j += 1
+            i = j
+        i += 1
+    return keep
+
+
 def candidates(prop, path):
     src = open(MU + '/repo/' + path).read()
     cut = src.find('#[cfg(test)]')
     body_end = cut if cut >= 0 else len(src)
+    only_lines = one_renderer_lines(src) if prop == 'C01' else None
     out = []
     pos = 0
     for ln, line in enumerate(src[:body_end].split('\n')):
         start = pos
         pos += len(line) + 1
+        if only_lines is not None and ln not in only_lines:
+            continue
         st = line.strip()
         if st.startswith('//') or st.startswith('#[') or st.startswith('use ') or st.startswith('pub use') or not st:
             continue
